@@ -317,6 +317,18 @@ func readExportCBORNode(expectedSize int64, cidStr string, reader *tar.Reader) (
 		return nil, errcode.ErrCode_ErrInternal.Wrap(fmt.Errorf("unexpected file size"))
 	}
 
+	// the identifier must be the hash of the bytes found in the archive:
+	// Decode re-encodes what it has read, so the CID of the decoded node only
+	// vouches for the canonical form of the entry, not for these bytes
+	bytesCID, err := expectedCID.Prefix().Sum(nodeContents.Bytes())
+	if err != nil {
+		return nil, errcode.ErrCode_ErrInvalidInput.Wrap(err)
+	}
+
+	if !bytesCID.Equals(expectedCID) {
+		return nil, errcode.ErrCode_ErrInvalidInput.Wrap(fmt.Errorf("entry bytes don't match file CID"))
+	}
+
 	node, err := cbornode.Decode(nodeContents.Bytes(), mh.SHA2_256, -1)
 	if err != nil {
 		return nil, errcode.ErrCode_ErrDeserialization.Wrap(err)
